@@ -54,13 +54,15 @@ class Harness:
 
 
 def parse_kernel(path):
-    txt = open(path).read(); hs = []; tags = {'flags': [], 'models': [], 'noubsan': False, 'exttempl': True}
+    txt = open(path).read(); hs = []; tags = {'flags': [], 'models': [], 'noubsan': False, 'exttempl': True, 'unity': [], 'stubs': []}
     for l in txt.split('\n'):
         m = re.match(r'\s*//@(\w+)\s*(.*)$', l)
         if not m: continue
         k, rest = m.group(1), m.group(2).strip()
         if k == 'flags': tags['flags'] += rest.split()
         elif k == 'models': tags['models'] += rest.split()
+        elif k == 'unity': tags['unity'] += rest.split()
+        elif k == 'stub': tags['stubs'].append(rest.split())
         elif k == 'noubsan': tags['noubsan'] = True
         elif k == 'keep_extern_templates': tags['exttempl'] = False
         elif k == 'property': tags['property'] = rest
@@ -98,7 +100,15 @@ def run_cmd(cmd, timeout=900):
 def build_tu(path, tags, names, bdir):
     base = os.path.splitext(os.path.basename(path))[0]
     ll = os.path.join(bdir, base + '.ll'); binp = os.path.join(bdir, base + '.bin'); mainp = os.path.join(bdir, base + '_main.cpp')
-    flags = include_flags() + build_defines(tags) + tags['flags']
+    flags = include_flags() + ['-I' + bdir] + build_defines(tags) + tags['flags']
+    for lib in tags['unity']:
+        srcs = []
+        for sub in ('src', os.path.join('impl', 'src')):
+            for root, _, files in os.walk(os.path.join(REPO, 'libs', lib, sub)):
+                srcs += [os.path.join(root, f) for f in files if f.endswith('.cpp')]
+        with open(os.path.join(bdir, 'unity_%s.hpp' % lib), 'w') as f:
+            f.write('// generated: every source file of libs/%s in the working tree\n' % lib)
+            for x in sorted(srcs): f.write('#include "%s"\n' % x)
     cl = CLANG_BASE + ([] if tags['noubsan'] else [UBSAN, '-fsanitize-trap=all']) + (['-D_GLIBCXX_EXTERN_TEMPLATE=0'] if tags['exttempl'] else []) + flags + [path, '-o', ll]
     with open(mainp, 'w') as f:
         f.write('struct verif_entry { char const *name; void (*fn)(void); };\nextern "C" {\n')
@@ -125,7 +135,7 @@ _MODCACHE = {}
 
 def worker(job):
     import irsym, irfront
-    (lls, name, params, opts, known) = job
+    (lls, name, params, opts, known, stubs) = job
     try:
         mods = []
         for p in lls:
@@ -139,6 +149,7 @@ def worker(job):
     t0 = time.time()
     ex = irsym.Exec(mods, lim, params, None, [t for t in opts.get('throws', '').split(',') if t], opts.get('leak') == '1')
     ex.known = known
+    ex.redirects = [(re.compile(a), b) for a, b in stubs]
     r = {'harness': name, 'params': params}
     try:
         if name not in ex.fn_of: raise irsym.Inconclusive('harness %s not found in IR' % name)
@@ -244,7 +255,7 @@ def main():
         if hs: tus.append((os.path.join(KERNELS, kf), tags, hs)); allh += hs
     if not allh: print('no harnesses selected'); sys.exit(2)
     # ---- 1. regenerate from the working tree
-    cmds = []; tuinfo = {}
+    cmds = []; tuinfo = {}; tutags = {p: t for p, t, _ in tus}
     for path, tags, hs in tus:
         names = sorted(set(h.name for h in hs))
         (cl, ll), (gx, binp) = build_tu(path, tags, names, bdir)
@@ -265,7 +276,7 @@ def main():
         sys.exit(2)
     # ---- 2. decide
     known = load_known(prop)
-    jobs = [([tuinfo[h.tu]['ll']] + tuinfo[h.tu]['models'], h.name, h.params, h.opts, [k for k in known if re.fullmatch(k['harness'], h.name)]) for h in allh]
+    jobs = [([tuinfo[h.tu]['ll']] + tuinfo[h.tu]['models'], h.name, h.params, h.opts, [k for k in known if re.fullmatch(k['harness'], h.name)], tutags[h.tu]['stubs']) for h in allh]
     order = sorted(range(len(jobs)), key=lambda i: -float(allh[i].opts.get('cost', 1)))
     with mp.Pool(a.jobs, maxtasksperchild=50) as pool:
         res_list = pool.map(worker, [jobs[i] for i in order], chunksize=1)
